@@ -1,6 +1,8 @@
 import EdzedModel.Basic.Val
 import EdzedModel.Counter
 import EdzedModel.Drv.Counter
+import EdzedModel.Drv.ErrorReg
 import EdzedModel.Drv.Simulate
+import EdzedModel.ErrorReg
 import EdzedModel.Gen.Constants
 import EdzedModel.Simulate
